@@ -156,8 +156,11 @@ func (c *controller) convergeBalancer(l log.Logger, key string, svc *v1.Service)
 		}
 	}
 
-	// If svc currently has 1 ip and policy PreferDualStack, try assigning ip from the missing family and same pool
-	if len(lbIPs) == 1 && familyPolicy == v1.IPFamilyPolicyPreferDualStack {
+	// If svc currently has 1 ip and policy PreferDualStack, try assigning ip from the missing family and same pool.
+	// Only a service with cluster IPs of both families can hold both: an address of a family the
+	// service has no cluster IP for is a family change on the next pass and gets cleared again.
+	clusterIPsIPFamily, _ := ipfamily.ForService(svc)
+	if len(lbIPs) == 1 && familyPolicy == v1.IPFamilyPolicyPreferDualStack && clusterIPsIPFamily == ipfamily.DualStack {
 		level.Info(l).Log("event", "tryAssignAdditionalIP", "msg", "familyPolicy is PreferDualStack, trying to assign additional ip")
 		currentPool := c.ips.Pool(key)
 		// Try assigning a new ip with the missing stack and from the same pool.
